@@ -114,18 +114,25 @@ def traced_run(cfg, extra_patches=None):
     events = []
     tasks = []
 
+    live = {"state": None}
+
     def listener(event, payload):
         rec = {"event": event}
+        if event == "phase" and live["state"] is not None:
+            # the state object that was handed to this phase, re-read after the phase returned
+            rec["given_after"] = snap_state(live["state"])
+        if "state" in payload:
+            live["state"] = payload["state"]
         for k, v in payload.items():
             if k in ("state", "model", "new_model"):
                 rec[k] = snap_state(v)
             elif k == "pool":
                 rec["pool_state"] = getattr(v, "_state", None) if not isinstance(v, RecordingPool) else getattr(v._real, "_state", None)
+            elif k == "switching_cost":
+                rec[k] = snap_value(v)
             elif isinstance(v, np.ndarray):
                 rec[k] = arr(v)
                 rec[k + "_id"] = id(v)
-            elif k == "switching_cost":
-                rec[k] = snap_value(v)
             elif k == "labels":
                 rec[k] = [int(x) for x in v]
             elif k == "args":
@@ -188,7 +195,8 @@ def cached_runs(ctx, cfgs, tag):
     """run (or fetch from the run cache keyed by the hash of /repo/src/fast_ticc) a list of configurations"""
     d = os.path.join(core.WORK, "runcache")
     os.makedirs(d, exist_ok=True)
-    key = hashlib.sha256((src_hash() + repr(cfgs) + tag).encode()).hexdigest()[:20]
+    harness = hashlib.sha256(open(__file__, "rb").read()).hexdigest()[:12]
+    key = hashlib.sha256((src_hash() + harness + repr(cfgs) + tag).encode()).hexdigest()[:20]
     p = os.path.join(d, key + ".pkl")
     if os.path.exists(p):
         try:
